@@ -34,6 +34,12 @@ def _tr(node, env):
         if key in env:
             return env[key]
         f = ast.unparse(node.func)
+        if f == "len":
+            # the length of something this lemma does not model: an arbitrary natural number (one per distinct text)
+            v = z3.Int("len_%d" % len(env))
+            env[key] = v
+            env.setdefault("__fresh__", []).append(v)
+            return v
         if f == "_rt.wrap":
             v = _tr(node.args[0], env)
             bits = node.args[1].value
@@ -88,22 +94,26 @@ def buffer_premise(max_chunks=2000000):
     buf_r = z3.If(size_r < floor, floor, size_r)
     s = z3.Solver()
     s.set("timeout", 60000)
-    s.add(n_rg >= 0, n_schema >= 1, kv >= 0, kv <= 100000000, n_cols >= 0, n_rg * n_schema <= max_chunks,
+    for v in env.get("__fresh__", []):
+        s.add(v >= 0, v <= 20000000)
+    s.add(n_rg >= 0, n_schema >= 1, kv >= 0, kv <= 20000000, n_cols >= 0, n_rg * n_schema <= max_chunks,
           n_cols <= max_chunks)      # beyond ~2.1M chunks `cdef int size` wraps (outside the bound, see DESIGN)
     if check(s) != "sat":
         res["status"] = "inconclusive"
         return res
     for label, bad, wit in (("FileMetaData", buf_f < 1000 * n_rg * (n_schema - 1), (n_rg, n_schema, kv)),
+                            ("FileMetaData-kv", buf_f < kv, (n_rg, n_schema, kv)),
                             ("RowGroup", buf_r < 1000 * n_cols, (n_cols,))):
         r = check(s, bad)
         if r == "sat":
             m = s.model()
             vals = [m.eval(v, model_completion=True).as_long() for v in wit]
             res["status"] = "violation"
-            args = dict(zip(("n_rg", "n_schema", "kv"), vals)) if label == "FileMetaData" else dict(n_cols=vals[0])
+            args = dict(zip(("n_rg", "n_schema", "kv"), vals)) if label.startswith("FileMetaData") else dict(n_cols=vals[0])
+            what = "the text of its key-value metadata" if label.endswith("-kv") else "1000 bytes per column chunk"
             res["findings"].append(dict(
-                kind="contract", function="ThriftObject.to_bytes", obligation="buffer >= 1000 bytes per column chunk",
-                detail="%s with %r gets a buffer smaller than 1000 bytes per column chunk" % (label, args),
+                kind="contract", function="ThriftObject.to_bytes", obligation="buffer >= " + what,
+                detail="%s with %r gets a buffer smaller than %s" % (label, args, what),
                 shape=dict(harness="lemma.buffer_premise", struct=label), cls="lemma:buffer_premise",
                 witness=dict(driver="py:vf.pyxlift.lemma_c10:replay_buffer_premise", args=dict(struct=label, **args))))
             return res
@@ -118,6 +128,20 @@ def replay_buffer_premise(struct, n_rg=0, n_schema=1, kv=0, n_cols=0):
     """metadata whose column chunks carry ~990 bytes each (inside the heuristic's premise), serialised on the ASan
     build of the compiled module"""
     from vf.pyxlift.h_c10cap import _run_sub
+    if struct == "FileMetaData-kv":
+        if kv > 50000000:
+            return None, "witness too large for the concrete driver"
+        code = ('''
+from fastparquet import parquet_thrift as pt
+from fastparquet.cencoding import from_buffer
+schema = [pt.SchemaElement(name="r", num_children=1), pt.SchemaElement(type=2, name="c", repetition_type=1)]
+t = pt.FileMetaData(version=1, schema=schema, num_rows=0, row_groups=[], created_by="x",
+                    key_value_metadata=[pt.KeyValue(key=b"k", value=b"v" * %d)])
+b = bytes(t.to_bytes())
+u = from_buffer(b, "FileMetaData")
+print("OK" if u == t else "MISMATCH output truncated or altered: %%d bytes" %% len(b))
+''' % kv)
+        return _run_sub(code)
     if struct != "FileMetaData":
         return None, "no concrete driver for %s" % struct
     if n_rg * (n_schema - 1) > 6000:
